@@ -325,23 +325,20 @@ Frame(b, o, si) ==
            \* the forbidden residual value does not stop the arithmetic: decoding goes on with it
            soft == subs.errs \ {"residual is the most negative value"}
            isWide == h.chcode \in 8..10 /\ soft = {} /\ "wide" \in DOMAIN subs.subs[sideAt]
-           \* 32-bit audio with a 33-bit side channel: pair arithmetic; a result outside 32 bits is reported and zeroed
-           wside == subs.subs[sideAt].wide
+           \* Decorrelation in pair arithmetic throughout (a side channel unrelated to its partner can push the result past 32 bits,
+           \* and 32-bit audio has a 33-bit side channel): a result outside 32 bits is reported and zeroed
+           decor == h.chcode \in 8..10 /\ soft = {}
+           wside == IF isWide THEN subs.subs[sideAt].wide ELSE [i \in 1..h.bs |-> WOf(subs.ch[sideAt][i])]
            wL == [i \in 1..h.bs |-> CASE h.chcode = 8 -> WOf(c1[i])
                                       [] h.chcode = 9 -> WAdd(wside[i], WOf(c2[i]))
                                       [] OTHER -> WAdd(WAdd(WOf(c1[i]), WHalf(wside[i])), <<0, wside[i][2] % 2>>)]
            wR == [i \in 1..h.bs |-> IF h.chcode = 9 THEN WOf(c2[i]) ELSE WSub(wL[i], wside[i])]
            wBad == \E i \in 1..h.bs : ~WFits32(wL[i]) \/ ~WFits32(wR[i])
-           dec == IF soft # {} THEN subs.ch
-                  ELSE IF isWide
+           dec == IF decor
                   THEN << [i \in 1..h.bs |-> IF WFits32(wL[i]) THEN WInt(wL[i]) ELSE 0],
                           [i \in 1..h.bs |-> IF WFits32(wR[i]) THEN WInt(wR[i]) ELSE 0] >>
-                  ELSE CASE h.chcode = 8 -> <<c1, [i \in 1..h.bs |-> c1[i] - c2[i]]>>
-                         [] h.chcode = 9 -> <<[i \in 1..h.bs |-> c1[i] + c2[i]], c2>>
-                         [] h.chcode = 10 -> LET L == [i \in 1..h.bs |-> c1[i] + (c2[i] \div 2) + (c2[i] % 2)]
-                                             IN <<L, [i \in 1..h.bs |-> L[i] - c2[i]]>>
-                         [] OTHER -> subs.ch
-           rangeErr == IF soft = {} /\ ((isWide /\ wBad) \/ \E c \in 1..Len(dec) : \E i \in 1..h.bs : ~InRange(dec[c][i], h.bps))
+                  ELSE subs.ch
+           rangeErr == IF soft = {} /\ ((decor /\ wBad) \/ \E c \in 1..Len(dec) : \E i \in 1..h.bs : ~InRange(dec[c][i], h.bps))
                        THEN {"decoded sample exceeds bit depth"} ELSE {}
        IN [errs |-> subs.errs \cup rangeErr \cup (IF trunc THEN {"truncated"} ELSE IF ~crcok THEN {"crc16"} ELSE {})
                     \cup (IF ~padOk THEN {"nonzero padding"} ELSE {}),
